@@ -146,6 +146,12 @@ def total_order_rule(ck, facts):
                        "`%s`: the combination is not transitive in general (e.g. \"2\"^^xsd:integer < \"10.0\"^^xsd:decimal by value, but "
                        "both compare with \"x\"^^<..#e> by datatype IRI, giving a cycle), so ORDER BY results depend on the input order and "
                        "comparable values can come out reversed" % (fn.name, src_name, other_order[0]), "%s:%s" % (t["file"], t["line"]))
+            elif re.search(r"sparql_order_by|cmp_bindings_with|order_by", fn.name):
+                short = re.sub(r"^expression::", "", fn.name)
+                ck.bad("R14.2", "R14.2@%s#partial-order-constant" % short,
+                       "%s turns the partial comparison `%s` into an Ordering by answering a constant where it is undefined: in a sort "
+                       "comparator incomparable values then tie with everything (1 ~ \"n/a\" ~ 2 although 1 < 2), the relation is not "
+                       "transitive and the result depends on the input order" % (fn.name, src_name), "%s:%s" % (t["file"], t["line"]))
             else:
                 ck.ok("R14.2", "%s: Option<Ordering> defaulted without a second order" % fn.name, nontrivial=False)
     ck.floor("R14.2", "Option<Ordering> fallbacks analysed", n, 1)
@@ -237,12 +243,75 @@ def operand_order_rule(ck, facts):
     ck.floor("R14.5", "operator applications in coercing_operator", n, 10)
 
 
+RANK = {"NativeInt": 0, "BigInt": 1, "Decimal": 2, "Float": 3, "Double": 4}
+# which operator parameter (3 = fint .. 7 = fdbl) must be applied for the wider of the two operand types (XPath numeric promotion)
+OP_FOR_RANK = {0: {3}, 1: {4}, 2: {5}, 3: {6}, 4: {7}}
+
+
+def promotion_table_rule(ck, facts):
+    """R14.6: numeric promotion is symmetric and goes to the wider type: for every pair of SparqlNumber variants the operator
+    applied by coercing_operator is the one of the *wider* of the two types (integer < decimal < float < double), whichever
+    side it is on.  (An arm order that lets `(Float, _)` shadow `(_, Double)` compares float-vs-double in f32 one way and in
+    f64 the other way: `<` becomes asymmetric.)  The 25 pairs are decided from the match's decision tree."""
+    from mirutil import enumerate_paths
+    fn = find(ck, facts, "R14.6", r"_number::SparqlNumber::coercing_operator$", "SparqlNumber::coercing_operator")
+    if fn is None:
+        return
+
+    def on_call(t):
+        if call_name_matches(t, r"ops::FnOnce<.*>>?::call_once$|ops::FnOnce::call_once$"):
+            f0 = provenance(fn, t["args"][0], transparent=())[-1]
+            if f0[0] == "param" and f0[1] >= 3:
+                return ("OP", f0[1])
+        return None
+    try:
+        paths = enumerate_paths(fn, 0, on_call, max_paths=4000)
+    except CheckError as e:
+        ck.bad("R14.6", "R14.6@coercing_operator#shape", str(e), fn.loc)
+        return
+    table = {}
+    for conds, toks in paths:
+        v = {}
+        for d, outcome, src in conds:
+            if src and src[0] == "param" and src[1] in (1, 2) and not src[2] and isinstance(outcome, str):
+                cur = set(outcome.split("|"))
+                v[src[1]] = (v[src[1]] & cur) if src[1] in v else cur
+        ops = [t[1] for t in toks if isinstance(t, tuple) and t[0] == "OP"]
+        if not ops:
+            continue
+        for a in v.get(1, set(RANK)):
+            for b in v.get(2, set(RANK)):
+                if a in RANK and b in RANK:
+                    table.setdefault((a, b), set()).add(ops[0])
+    missing = [(a, b) for a in RANK for b in RANK if (a, b) not in table]
+    if missing:
+        ck.bad("R14.6", "R14.6@coercing_operator#pairs-missing", "no operator application found for the operand types %s" % missing[:4], fn.loc)
+        return
+    wrong = []
+    for (a, b), ops in sorted(table.items()):
+        want = OP_FOR_RANK[max(RANK[a], RANK[b])]
+        # (NativeInt, NativeInt) may fall back to the BigInt operator on overflow: fint first
+        if (a, b) == ("NativeInt", "NativeInt"):
+            want = {3}
+        if ops != want:
+            wrong.append((a, b, sorted(ops), sorted(want)))
+    if wrong:
+        a, b, got, want = wrong[0]
+        names = {3: "fint", 4: "fbig", 5: "fdec", 6: "fflt", 7: "fdbl"}
+        ck.bad("R14.6", "R14.6@coercing_operator#promotion:%s/%s" % (a, b), "(%s, %s) is computed with %s, numeric promotion requires %s (the wider "
+               "of the two types, on whichever side): comparisons of mixed numeric types become asymmetric" % (
+                   a, b, [names.get(x, x) for x in got], [names.get(x, x) for x in want]), fn.loc)
+    else:
+        ck.ok("R14.6", "coercing_operator: all 25 operand-type pairs promote to the wider type, symmetrically")
+
+
 def run(ck, facts, tier):
     facts.require_crates(["sophia_sparql"])
     cmp_bindings_rule(ck, facts)
     total_order_rule(ck, facts)
     parser_table_rule(ck, facts)
     operand_order_rule(ck, facts)
+    promotion_table_rule(ck, facts)
     # R14.3
     fns = [f for f in facts.fns.values() if f.crate == "sophia_sparql" and re.search(r"order_by", f.name)]
     sites = []
